@@ -192,6 +192,7 @@ func runC10(ctx *Ctx) {
 	}
 	ctx.Cov.Component("catalog of a document vs catalogs of its block permutations (specification on the implementation)", ctx.Cov.Evaluations, len(ctx.Violations), "")
 	c10Verdicts(ctx, r)
+	c10TypeGraphs(ctx, r)
 }
 
 // c10Verdicts: "… never turns an accepted document into a rejected one or vice versa" on REJECTED documents too:
@@ -410,4 +411,124 @@ func onlyAdded(old, nw *OVal, fb BlockM) string {
 		}
 	}
 	return ""
+}
+
+
+// c10TypeGraphs: user types that use one another in arbitrary graphs — chains, diamonds and CYCLES (through arrays,
+// optional properties, "or" alternatives, and plain required references, which the library may refuse) — with further
+// dependencies hanging off the members of a cycle. Every order of the declarations must give the same verdict and,
+// when accepted, the same entries.
+func c10TypeGraphs(ctx *Ctx, r *Rng) {
+	n := ctx.Budget(150, 8000)
+	cases, bad := 0, 0
+	for i := 0; i < n && bad < 6; i++ {
+		k := 3 + r.Intn(3)
+		name := func(j int) string { return fmt.Sprintf("@g%d", j) }
+		var blocks []string
+		for j := 0; j < k; j++ {
+			type prop struct{ val, note string }
+			props := []prop{{fmt.Sprintf("  \"s%d\": %d", j, j), ""}}
+			for t := 0; t < k; t++ {
+				if t == j && !r.Chance(1, 6) {
+					continue
+				}
+				// a cycle-friendly graph: forward edges often, backward edges sometimes
+				p := 2
+				if t < j {
+					p = 1
+				}
+				if !r.Chance(p, 5) {
+					continue
+				}
+				switch r.Intn(5) {
+				case 0:
+					props = append(props, prop{fmt.Sprintf("  \"r%d\": %s", t, name(t)), ""})
+				case 1:
+					props = append(props, prop{fmt.Sprintf("  \"r%d\": %s", t, name(t)), " // {optional: true}"})
+				case 2:
+					props = append(props, prop{fmt.Sprintf("  \"r%d\": [%s]", t, name(t)), ""})
+				case 3:
+					props = append(props, prop{fmt.Sprintf("  \"r%d\": %s | @leaf", t, name(t)), ""})
+				default:
+					props = append(props, prop{fmt.Sprintf("  \"r%d\": 1", t), fmt.Sprintf(" // {or: [\"%s\", {type: \"integer\"}]}", name(t))})
+				}
+			}
+			// the order of the properties matters to the order in which the used types are met
+			if r.Bool() {
+				for a, b := 1, len(props)-1; a < b; a, b = a+1, b-1 {
+					props[a], props[b] = props[b], props[a]
+				}
+			}
+			var lines []string
+			for q, pr := range props {
+				l := pr.val
+				if q < len(props)-1 {
+					l += ","
+				}
+				lines = append(lines, l+pr.note)
+			}
+			blocks = append(blocks, "TYPE "+name(j)+"\n{\n"+strings.Join(lines, "\n")+"\n}\n")
+		}
+		blocks = append(blocks, "TYPE @leaf\n{\"l\": 1}\n")
+		blocks = append(blocks, fmt.Sprintf("GET /g%d\n  200 %s\n", i, name(r.Intn(k))))
+		render := func(p []int) []byte {
+			var b strings.Builder
+			b.WriteString("JSIGHT 0.3\n")
+			for _, j := range p {
+				b.WriteString(blocks[j])
+			}
+			return []byte(b.String())
+		}
+		id := make([]int, len(blocks))
+		for j := range id {
+			id[j] = j
+		}
+		b0 := RunProject(SingleFile(render(id)), false)
+		if b0.Panic != "" {
+			continue
+		}
+		var c0 string
+		if b0.Accepted() {
+			c0, _, _ = unorderedCatalog(b0.JSON, map[string][]string{})
+			ctx.Cov.Hit("type graphs: accepted")
+		} else {
+			ctx.Cov.Hit("type graphs: rejected (" + firstWords(b0.Verdict(), 4) + ")")
+		}
+		var perms [][]int
+		if len(blocks) <= 4 {
+			allPerms(len(blocks), func(p []int) { perms = append(perms, append([]int(nil), p...)) })
+		} else {
+			for q := 0; q < ctx.Len(14, 80); q++ {
+				perms = append(perms, permute(r, len(blocks)))
+			}
+		}
+		for _, p := range perms {
+			doc := render(p)
+			b1 := RunProject(SingleFile(doc), false)
+			cases++
+			ctx.Cov.Count(doc, true)
+			if b1.Panic != "" {
+				continue
+			}
+			in := projectInput(SingleFile(doc))
+			in["op"] = "permute"
+			in["original"] = hx(render(id))
+			if b1.Accepted() != b0.Accepted() {
+				bad++
+				ctx.Violate(Violation{Kind: "wrong-output", Site: "declaration order", What: fmt.Sprintf("reordering the declarations of user types that use one another changes the verdict: %s, in the original order: %s", b1.Verdict(), b0.Verdict()),
+					Input: in, Observed: b1.Verdict(), Expected: b0.Verdict(), Signature: "perm-verdict-types"})
+				break
+			}
+			if b1.Accepted() {
+				c1, _, _ := unorderedCatalog(b1.JSON, map[string][]string{})
+				if c1 != c0 {
+					bad++
+					ctx.Violate(Violation{Kind: "wrong-output", Site: "declaration order", What: "reordering the declarations of user types that use one another changes the content of an entry",
+						Input: in, Signature: "perm-content-types"})
+					break
+				}
+			}
+		}
+	}
+	ctx.Cov.Component("user types using one another in graphs with cycles vs the permutations of their declarations: same verdict, same entries (specification on the implementation)", cases, bad, "")
 }
